@@ -10,5 +10,6 @@ CFG = dict(
     assumptions=["a position opened and fully closed inside one block is not tracked by the replay (its address is in neither observation)"],
     explanation="Theorems: pool leveraged amount = sum of its positions, position amount = shares committed at the position address, counter = stored positions, "
                 "preserved by open / consolidate / partial and full close for all share amounts over all histories; a full close leaves nothing behind. "
-                "Model tied to the code block by block; predicates evaluated on every observed block (incl. begin-blocker sweeps and ClosePositions).",
+                "Model tied to the code block by block; predicates evaluated on every observed block (incl. begin-blocker sweeps and ClosePositions)."
+                " Id allocation: no stored position's id exceeds the counter and no id is stored twice over all histories of opens, closes and genesis export/import restarts (ids_never_reused; witness of the import-by-length rule); evaluated on every observed block.",
 )
